@@ -71,6 +71,9 @@ class Evaluator(Run):
         if base.t.kind == "obj":
             cell = self.cell(base) if self.old_heap is None else self.old_heap[base.z]
             if attr in cell.content:
+                miss = cell.content.get("__missing_" + attr)
+                if miss is not None:
+                    self.fail_if(miss.z, "AttributeError", self.lab(node, "attr." + attr))
                 return self.unnull(cell.content[attr], attr)
             return const(BoundMethod(base, attr))
         if base.t.kind == "opaque":
@@ -395,6 +398,10 @@ class Evaluator(Run):
                     raise Unsupported("slice of heterogeneous tuple")
             return self.seq_slice(base, lo, hi, heap)
         k = base.t.kind
+        if k in ("drec", "itemref", "rec"):
+            from . import records
+
+            return records.getitem(self, base, self.ev(sl, frame), lab)
         if k in ("dict", "vmap"):
             key = self.ev(sl, frame)
             m = self.content(base, heap) if k == "dict" else base
@@ -414,6 +421,10 @@ class Evaluator(Run):
         return self.seq_index(base, idx, lab, heap)
 
     def unbox_item(self, base, m, kz):
+        if base.t.kind == "dict" and not self.pure and m.t.v.kind == "rec":
+            dr = self.ctx.drec_for(m.t.v)
+            if dr is not None:
+                return V(T.ItemRef(dr), (base, kz.z))
         return V(m.t.v, z3.Select(m.t.val(m.z), kz.z))
 
     # comprehension support (as sequences) ------------------------------------------------
@@ -477,11 +488,24 @@ class Evaluator(Run):
                 return Iter(z3.IntVal(0), None, concrete=[])
             if s.t.kind == "bytes":
                 return Iter(z3.Length(s.z), lambda i, s=s: V(T.Int, nth(s.z, i)), src_locs=[v.z] if k == "list" else [])
-            return Iter(z3.Length(s.z), lambda i, s=s: V(s.t.elem, nth(s.z, i)), src_locs=[v.z] if k == "list" else [])
+            return Iter(z3.Length(s.z), lambda i, s=s: V(s.t.elem, nth(s.z, i)), src_locs=[v.z] if k == "list" else [], seq=s)
         if k == "str":
             return Iter(z3.Length(v.z), lambda i, s=v: V(T.Str, z3.SubString(s.z, i, 1)))
+        if k in ("set", "vset"):
+            # arbitrary but fixed order: a duplicate-free sequence with exactly the set's elements
+            sv = self.content(v, self.old_heap) if k == "set" else v
+            st = T.Seq(sv.t.elem)
+            order = z3.Const(fresh_name("setorder"), st.sort())
+            x = z3.Const(fresh_name("x"), sv.t.elem.sort())
+            pos = z3.Function(fresh_name("pos"), sv.t.elem.sort(), z3.IntSort())
+            i, j = z3.Int(fresh_name("i")), z3.Int(fresh_name("j"))
+            self.assume(z3.ForAll([x], z3.Implies(z3.Select(sv.z, x), z3.And(0 <= pos(x), pos(x) < z3.Length(order), order[pos(x)] == x))))
+            self.assume(z3.ForAll([i, j], z3.Implies(z3.And(0 <= i, i < j, j < z3.Length(order)), order[i] != order[j])))
+            self.assume(z3.ForAll([i], z3.Implies(z3.And(0 <= i, i < z3.Length(order)), z3.Select(sv.z, order[i]))))
+            ov = V(st, order)
+            return Iter(z3.Length(order), lambda i2, s=ov: V(s.t.elem, nth(s.z, i2)), src_locs=[v.z] if k == "set" else [], seq=ov)
         if k in ("dict", "vmap"):
-            g = self.ghost.get(("cell", v.z), {}) if k == "dict" else {}
+            g = (self.cell_ghost(v.z) or {}) if k == "dict" else {}
             if "order_independent" in g:
                 self.ctx.note_violation_flag(self, "order_independent", node)
             if "keys" in g:
@@ -606,7 +630,7 @@ class Evaluator(Run):
             e.update(self.spec_env["__old_env__"])
             self.spec_env = e
         try:
-            return self.ev(node.args[0], frame)
+            return self.freeze(self.ev(node.args[0], frame))
         finally:
             self.old_heap, self.spec_env = saved
 
@@ -617,6 +641,51 @@ class Evaluator(Run):
             st = T.Seq(self.ctx.log_type(nm))
             return V(st, z3.Empty(st.sort()))
         return lg
+
+    def special_pre(self, node, frame):
+        """value of an expression at the entry of the loop whose invariant is being evaluated"""
+        key = getattr(self, "cur_loop_key", None)
+        if key is None or key not in getattr(self, "loop_pre", {}):
+            raise EngineError("pre() outside a loop invariant")
+        heap, ghost = self.loop_pre[key]
+        saved = (self.old_heap, self.ghost)
+        self.old_heap, self.ghost = heap, ghost
+        try:
+            return self.freeze(self.ev(node.args[0], frame))
+        finally:
+            self.old_heap, self.ghost = saved
+
+    def freeze(self, v):
+        """value of a heap container in the heap currently in force (for old()/at()/pre())"""
+        if v.t.kind in ("list", "dict", "set"):
+            return self.content(v, self.old_heap)
+        if v.t.kind in ("drec", "itemref"):
+            from . import records
+
+            return records.as_rec(self, v, self.old_heap)
+        return v
+
+    def special_at(self, node, frame):
+        """value of an expression in a named heap snapshot (contract field `snapshots`)"""
+        label = node.args[0].value
+        heaps = getattr(self, "named_heaps", {})
+        if label not in heaps:
+            raise ClauseVacuous()  # the snapshot point was not reached on this path
+        saved = self.old_heap
+        self.old_heap = heaps[label]
+        try:
+            return self.freeze(self.ev(node.args[1], frame))
+        finally:
+            self.old_heap = saved
+
+    def special_cnt(self, node, frame):
+        """multiset count of x in a counted list / deque (ghost)"""
+        lst = self.ev(node.args[0], frame)
+        x = self.ev(node.args[1], frame)
+        if lst.t.kind != "list" or not lst.t.counted:
+            raise EngineError("cnt() needs a counted list")
+        g = self.cell_ghost(lst.z)
+        return mk_int(z3.Select(g["cnt"], self.coerce(x, lst.t.elem).z))
 
     def special_implies(self, node, frame):
         a = self.truthy(self.ev(node.args[0], frame))
@@ -851,6 +920,11 @@ class Evaluator(Run):
     def store_subscript(self, base, sl, val, node, frame):
         lab = self.lab(node, "store")
         k = base.t.kind
+        if k in ("drec", "itemref"):
+            from . import records
+
+            records.setitem(self, base, self.ev(sl, frame), val, lab)
+            return
         if k == "dict":
             from . import models
 
@@ -1169,7 +1243,7 @@ class Evaluator(Run):
     def havoc_loc(self, loc, base):
         cell = self.heap[loc]
         self.write_check(loc)
-        if cell.ty.kind == "obj":
+        if cell.ty.kind in ("obj", "drec"):
             for k, fv in list(cell.content.items()):
                 if fv.is_const or fv.t.heap:
                     continue
@@ -1178,7 +1252,7 @@ class Evaluator(Run):
             raise EngineError("havoc of list with undetermined element type (declare a local type for %s)" % base)
         else:
             cell.content = fresh(cell.ty.content(), base)
-            g = self.ghost.get(("cell", loc))
+            g = self.cell_ghost(loc)
             if g:
                 self.ctx.havoc_cell_ghost(self, loc, g, base)
 
@@ -1286,6 +1360,8 @@ class Evaluator(Run):
         inv_items = list(invs.items()) if isinstance(invs, dict) else [("inv%d" % (i + 1), s) for i, s in enumerate(invs)]
         variant = spec.get("variant")
         extra0 = {"_i": mk_int(0), "_n": mk_int(it.n) if is_for else mk_int(0)}
+        if is_for and getattr(it, "seq", None) is not None:
+            extra0["_seq"] = it.seq
         # 1. invariant holds on entry
         for lbl, src in inv_items:
             g = self.truthy(self.spec_eval_in_frame(src, frame, extra0))
@@ -1310,6 +1386,9 @@ class Evaluator(Run):
                 if sl in locs and not spec.get("mutates_iterated", False):
                     raise Unsupported("loop body may mutate the list it iterates over")
         entry_epoch = self.epoch
+        self.loop_pre = getattr(self, "loop_pre", {})
+        self.loop_pre[key] = (self.snapshot(), dict(self.ghost))
+        self.cur_loop_key = key
         for loc in sorted(locs):
             self.havoc_loc(loc, "h%s" % key.replace("#", ""))
         declared = set()
@@ -1337,6 +1416,8 @@ class Evaluator(Run):
         ctx.havoc_extra(self, spec)
         idx = z3.Int(fresh_name("_i"))
         extra = {"_i": mk_int(idx), "_n": mk_int(it.n) if is_for else mk_int(0)}
+        if "_seq" in extra0:
+            extra["_seq"] = extra0["_seq"]
         if is_for:
             self.assume(z3.And(idx >= 0, idx <= it.n))
         for lbl, src in inv_items:
@@ -1361,6 +1442,8 @@ class Evaluator(Run):
                 except ContinueEx:
                     pass
                 extra2 = {"_i": mk_int(idx + 1), "_n": extra["_n"]}
+                if "_seq" in extra0:
+                    extra2["_seq"] = extra0["_seq"]
                 for lbl, src in inv_items:
                     g = self.truthy(self.spec_eval_in_frame(src, frame, extra2))
                     ctx.add_obligation(self, "inv-preserved", "%s.%s" % (key, lbl), g, clause=src, line=node.lineno)
